@@ -44,6 +44,7 @@ def panic_signature(p):
     frame = re.sub(r"::\{\{closure\}\}", "", frame)
     frame = re.sub(r"::h[0-9a-f]{16}$", "", frame)
     frame = re.sub(r"<([^<>]*) as ([^<>]*)>", r"\1", frame)
+    frame = re.sub(r"<([\w:]+)>", r"\1", frame)  # nightly prints inherent impls as <path::Type>::method
     msg = p.get("msg", "")
     msg = re.sub(r"'[^']*'", "'_'", msg)
     msg = re.sub(r'"[^"]*"', '"_"', msg)
